@@ -360,5 +360,7 @@ pub mod datatypes;
 pub mod nogoods;
 pub mod obdd;
 pub mod parser;
+#[cfg(feature = "verif_hooks")]
+pub mod verif;
 #[cfg(test)]
 mod test;
